@@ -1,0 +1,17 @@
+//go:build verif
+
+package rtmp
+
+import "github.com/q191201771/lal/pkg/base"
+
+// Verification hooks (build tag verif): add-only exports used by the /verif conformance harness.
+
+// VerifMessage2Chunks exposes message2Chunks with an explicit previous header and chunk size.
+func VerifMessage2Chunks(message []byte, header *base.RtmpHeader, prevHeader *base.RtmpHeader, chunkSize int) []byte {
+	return message2Chunks(message, header, prevHeader, chunkSize)
+}
+
+// VerifStreamMsg exposes the message completed by the ChunkComposer callback.
+func VerifStreamMsg(stream *Stream) base.RtmpMsg {
+	return stream.toAvMsg()
+}
